@@ -25,7 +25,7 @@ LEVEL_TEXT = ("Each regrouping is an independent real execution compared event-b
 LEVEL_NOTE = "trusted: the trace recorder in vf/sched.py; the classification of one known mechanism uses vf/models/cycle.py"
 ASSUMPTIONS = ["runs end by completion or limit only (the statement's scope)", "dyadic numbers so tymes compare exactly"]
 NSHARDS = {"quick": 8, "thorough": 16}
-REQUIRE = {"rehomed_pairs_compared": 800, "nondyadic_pairs_compared": 300, "pairs_compared": 2000, "leaf_recur_steps_compared": 20000, "forced_exit_orders_compared": 300,
+REQUIRE = {"negative_tock_pairs_compared": 200, "rehomed_pairs_compared": 800, "nondyadic_pairs_compared": 300, "pairs_compared": 2000, "leaf_recur_steps_compared": 20000, "forced_exit_orders_compared": 300,
            "groups_depth2plus": 100}
 
 
@@ -60,6 +60,15 @@ def cases(tier, seed, shard, nshards):
             pos = [0.1, 0.07, 1 / 3, 0.7, 0.25, 1.1, 0.2, 0.3]
             for lf in gen_sched.leaves_of(flat["doers"]):
                 lf["ys"] = [y if y else rng.choice(pos) for y in (lf.get("ys") or [])] or [rng.choice(pos)]
+        if not nondy and rng.random() < 0.12:
+            # negative yielded tocks (dyadic): whatever a flat Doist makes of them, grouping must not change it.  No 0/None
+            # yields here, so the recorded asap-inside-a-DoDoer finding cannot be involved and no model is consulted.
+            flat["negative"] = True
+            for lf in gen_sched.leaves_of(flat["doers"]):
+                ys = [y if y else rng.choice([0.25, 0.5, 1.0, 2.0]) for y in (lf.get("ys") or [])] or [rng.choice([0.5, 1.0])]
+                if rng.random() < 0.6:
+                    ys[rng.randrange(len(ys))] = rng.choice([-1.0, -0.25, -2.0, -0.5])
+                lf["ys"] = ys
         flat["rehome_tyme"] = rng.choice([None, None, 0.0, 5.0, 2.5]) if not nondy else rng.choice([None, 0.0, 2.7])
         nested = []
         for _ in range(k):
@@ -110,7 +119,8 @@ def model_recurs(prog, asap, leaf_ids):
 def run_case(case, ctx):
     flat = case["flat"]
     leaf_ids = {lf["id"] for lf in gen_sched.leaves_of(flat["doers"])}
-    if flat.get("dyadic", True):
+    modelled = flat.get("dyadic", True) and not flat.get("negative")
+    if modelled:
         mflat = cycle.Model(flat, "next", True).run()
         if mflat.done == "runaway":
             ctx.count("model_runaway_skipped")
@@ -131,6 +141,8 @@ def run_case(case, ctx):
         ctx.count("pairs_compared")
         if not flat.get("dyadic", True):
             ctx.count("nondyadic_pairs_compared")
+        if flat.get("negative"):
+            ctx.count("negative_tock_pairs_compared")
         ctx.count("leaf_recur_steps_compared", len(pf["recurs"]))
         if pf["forced"]:
             ctx.count("forced_exit_orders_compared")
@@ -155,7 +167,7 @@ def run_case(case, ctx):
             bad = ("forced-exit-order", f"flat forced={pf['forced']} exits={pf['exits']}; nested forced={pn['forced']} exits={pn['exits']}")
         if bad:
             key = "nesting-not-transparent:" + bad[0]
-            if bad[0] in ("recurs", "completion", "done-flags", "forced-exit-order") and flat.get("dyadic", True):
+            if bad[0] in ("recurs", "completion", "done-flags", "forced-exit-order") and modelled:
                 # known mechanism: inside a tock-0 DoDoer an asap re-run is stored as due = current tyme
                 # (tyme + DoDoer.tock) instead of the next cycle's tyme, so a later positive tock is counted from
                 # one cycle too early.  Recognised by the nested run matching the literal "own tock" model exactly
@@ -179,8 +191,8 @@ def run_case(case, ctx):
                          if pf2[k] != pn2[k]), None)
             if diff:
                 key = "nesting-not-transparent:after-rehoming-under-new-doist:" + diff
-                own, _ = model_recurs(n2, "own", leaf_ids) if flat.get("dyadic", True) else (None, None)
-                nxt, _ = model_recurs(f2, "next", leaf_ids) if flat.get("dyadic", True) else (None, None)
+                own, _ = model_recurs(n2, "own", leaf_ids) if modelled else (None, None)
+                nxt, _ = model_recurs(f2, "next", leaf_ids) if modelled else (None, None)
                 if own is not None and pn2["recurs"] == own and pf2["recurs"] == nxt and own != nxt:
                     key = "asap-inside-tock0-dodoer-due-not-advanced"
                 ctx.violation(key, f"second run from tyme {flat['rehome_tyme']}: flat {str(pf2[diff])[:300]} nested {str(pn2[diff])[:300]}",
